@@ -169,6 +169,17 @@ func newSite(w *world) *site {
 		if tok == "nilprincipal" {
 			return nil, nil
 		}
+		// principals that are non-nil but the zero value of their type: principals all the same
+		switch tok {
+		case "zero-string":
+			return "", nil
+		case "zero-int":
+			return 0, nil
+		case "zero-bool":
+			return false, nil
+		case "zero-struct":
+			return struct{ Name string }{}, nil
+		}
 		return nil, oaerrors.Unauthenticated("key " + tok)
 	}))
 	api.RegisterAuthorizer(runtime.AuthorizerFunc(func(r *http.Request, p interface{}) error {
